@@ -192,10 +192,13 @@ def rel_C14(suite):
                (im[0], im[1] if im[0] == 'OK' else '', log_events(im[3], 'XKC'), im[5])
 
     def prop(c, rule, text, m, im, flags):
+        msg = check_chain_violation(c, im)
+        if msg:
+            return msg
         if sel(m, im)[0] != sel(m, im)[1]:
             return 'user function calls / results differ from the documented contract'
         return None
-    return generic(suite, ['hooks', 'memo', 'probe'], sel,
+    return generic(suite, ['hooks', 'memo', 'probe', 'corpus'], sel,
                    lambda c, m, im: (c['id'], tuple(e.split('@')[0].split('(')[0] for e in log_events(im[3], 'XKC'))) if log_events(im[3], 'XKC') else None,
                    'hook calls', prop)
 
@@ -297,9 +300,50 @@ def rel_C05(suite):
     return group_relation(suite, 'memo', 'memo variants disagree', False)
 
 
+def check_chains(text):
+    """rules with several @check directives whose functions are distinct and used by no other rule: [(rule, [fn…])]"""
+    per_rule = []
+    for block in text.split('\n\n'):
+        ls = [l for l in block.strip().split('\n') if l]
+        fns = [re.match(r'@check\(([\w:]+)\)', l).group(1) for l in ls if l.startswith('@check(')]
+        body = [l for l in ls if not l.startswith('@')]
+        if body and fns:
+            m = re.match(r'(\w+) =', body[0])
+            per_rule.append((m.group(1) if m else '?', fns))
+    use = collections.Counter(f for _, fns in per_rule for f in set(fns))
+    return [(r, fns) for r, fns in per_rule if len(fns) >= 2 and len(set(fns)) == len(fns) and all(use[f] == 1 for f in fns)]
+
+
+def check_chain_violation(c, im):
+    """every @check of a rule is called, in the order written, until one fails: a call of the j-th function of a rule must
+    directly follow a call of the (j-1)-th on the same value (oracle on the implementation's hook log alone)"""
+    chains = check_chains(c['text'])
+    if not chains:
+        return None
+    ks = []
+    for e in im[3].split(';'):
+        if e.startswith('K:'):
+            m = re.match(r'K:([\w:]+)\((.*)\)/\d+$', e)
+            if m:
+                ks.append((m.group(1), m.group(2)))
+    for rule, fns in chains:
+        for j in range(1, len(fns)):
+            for k, (f, v) in enumerate(ks):
+                if f == fns[j] and (k == 0 or ks[k - 1] != (fns[j - 1], v)):
+                    return '@check %s of rule %s was called without the @check written before it (%s) having been called on the same value' % (fns[j], rule, fns[j - 1])
+    return None
+
+
 def rel_C12(suite):
     # other spellings of the directives of one grammar: same parser (results and reported errors)
-    return group_relation(suite, 'spell', 'directive spellings of one grammar disagree', True)
+    res = group_relation(suite, 'spell', 'directive spellings of one grammar disagree', True)
+    for c, i, rule, text, m, im, flags in iter_lines(suite, ['spell', 'hooks', 'corpus']):
+        msg = check_chain_violation(c, im)
+        if msg:
+            res['prop'].append(mk_replay(c, i, rule, text, m, im, msg))
+        elif check_chains(c['text']) and 'K:' in im[3]:
+            res['nontrivial'].add((c['id'], 'check-chain'))
+    return res
 
 
 def rel_C13(suite):
